@@ -82,6 +82,23 @@ Proof.
 Qed.
 Print Assumptions C16_invalid_rejected.
 
+(* KEYWORD VALUES of the worker count.  `cores` and `all` are accepted by every source of the setting
+   (command line / PIKA_COMMANDLINE_OPTIONS option, --pika:ini, PIKA_THREADS, built-in default) and obey the
+   same precedence as numbers: whenever start-up succeeds (and pika.force_min_os_threads is not forced through
+   --pika:ini) the runtime's worker count is the meaning of the text of the highest-precedence source present
+   ([threads_text]: option, else ini definition, else environment variable, else the default `cores`), where
+   `cores` = number of cores and `all` = number of PUs of the EFFECTIVE mask ([eff_counts]: the whole machine
+   under --pika:ignore-process-mask / pika.ignore_process_mask, else the explicit --pika:process-mask if one
+   resolves, else the inherited process mask; a core counts when at least one of its PUs is in the mask). *)
+Theorem C16_threads_keywords_precedence :
+  forall env p cfg m ok f a c,
+    handle env p cfg m ok f a = Started c ->
+    assoc "pika.force_min_os_threads" cfg = None ->
+    exists it ic, eff_counts env p cfg m = Some (it, ic) /\
+      kw_count it ic (threads_text env p cfg) = Some (c_threads c).
+Proof. exact threads_keywords_precedence_sources. Qed.
+Print Assumptions C16_threads_keywords_precedence.
+
 (* unknown options (pika or not) are not swallowed: the parser records the token verbatim as
    unregistered, later tokens never remove it, and a non-empty unregistered list makes the
    start-up end in `rejected` (late handler, stop() = -1, entry point not run) *)
@@ -106,7 +123,8 @@ Print Assumptions C16_unknown_pika_option_rejected.
 (* F11: false of the current code.  An option present both in PIKA_COMMANDLINE_OPTIONS and on
    the command line does not resolve to the command-line value: start-up is rejected with
    multiple_occurrences. *)
-Definition M16 := {| m_pus := 16; m_cores := 16; m_maskcount := 16; m_maskcores := 16 |}.
+Definition M16 := {| m_pus := 16; m_cores := 16; m_maskcount := 16; m_maskcores := 16;
+                     m_coremasks := map (fun i => N.shiftl 1 (N.of_nat i)) (seq 0 16) |}.
 Theorem C16_prepend_duplicate_refuted :
   exists env args,
     run env M16 "./prog" args = Rejected RMultiple /\
@@ -280,3 +298,24 @@ Example ex_app_args_prepended :
   tok_prepend (builtin env "pika.commandline.prepend_options") = Some ["pre"; "--pika:threads=2"] /\
   exists c, run env M16 "./prog" ["x y"; "z"] = Started c /\ c_argv c = ["pre"; "x y"; "z"].
 Proof. split; [vm_compute; reflexivity|]. eexists. split; vm_compute; reflexivity. Qed.
+
+(* keywords: a machine with 2 PUs per core (HWLOC_SYNTHETIC="package:2 core:2 pu:2" in the check) *)
+Definition M8 := {| m_pus := 8; m_cores := 4; m_maskcount := 8; m_maskcores := 4; m_coremasks := [3; 12; 48; 192]%N |}.
+Example ex_kw_cmdline_over_env :
+  (exists c, run [("PIKA_THREADS", "3")] M8 "./prog" ["--pika:threads=cores"] = Started c /\ c_threads c = 4%N) /\
+  (exists c, run [("PIKA_THREADS", "3")] M8 "./prog" ["--pika:threads=all"] = Started c /\ c_threads c = 8%N) /\
+  (exists c, run [("PIKA_THREADS", "all")] M8 "./prog" ["--pika:threads=3"] = Started c /\ c_threads c = 3%N).
+Proof. repeat split; eexists; (split; [vm_compute; reflexivity|reflexivity]). Qed.
+Example ex_kw_ini_between :
+  (exists c, run [("PIKA_THREADS", "3")] M8 "./prog" ["--pika:ini=pika.os_threads=all"] = Started c /\ c_threads c = 8%N) /\
+  (exists c, run [("PIKA_THREADS", "all")] M8 "./prog" ["--pika:ini=pika.os_threads=cores"] = Started c /\ c_threads c = 4%N) /\
+  (exists c, run [("PIKA_COMMANDLINE_OPTIONS", "--pika:threads=cores")] M8 "./prog" ["--pika:ini=pika.os_threads=2"; "x"] = Started c
+             /\ c_threads c = 4%N).
+Proof. repeat split; eexists; (split; [vm_compute; reflexivity|reflexivity]). Qed.
+Example ex_kw_effective_mask :
+  (exists c, run [] M8 "./prog" ["--pika:process-mask=0x7"; "--pika:threads=cores"] = Started c /\ c_threads c = 2%N) /\
+  (exists c, run [] M8 "./prog" ["--pika:process-mask=0x7"; "--pika:threads=all"] = Started c /\ c_threads c = 3%N) /\
+  (exists c, run [("PIKA_PROCESS_MASK", "0x3")] M8 "./prog" [] = Started c /\ c_threads c = 1%N) /\
+  (exists c, run [("PIKA_PROCESS_MASK", "0x3")] M8 "./prog" ["--pika:ignore-process-mask"; "--pika:threads=all"; "--pika:bind=none"] = Started c
+             /\ c_threads c = 8%N).
+Proof. repeat split; eexists; (split; [vm_compute; reflexivity|reflexivity]). Qed.
